@@ -17,48 +17,56 @@ PAL = 'asefile::palette::'
 
 # ------------------------------------------------------------------ table rows (P3): each re-verifies its obligation
 def row_chunk_size_minus_header(ctx, site):
-    b = site.body
-    cs = T.dominating_call(b, site.bb, P + 'check_chunk_bytes')
-    if not cs:
-        return False, 'not dominated by a ?-propagated check_chunk_bytes(..) call'
-    a0 = strip_casts(q.arg_terms(cs[0])[0])
-    m = b.blocks[site.bb]['term']['msg']
-    minuend = strip_casts(res(b).operand(m['a']))
-    if a0 != minuend:
-        return False, 'check_chunk_bytes is applied to %s, not to the minuend %s' % (show(a0), show(minuend))
-    k = q.const_val(res(b).operand(m['b']))
-    cb = ctx.fx.body(P + 'check_chunk_bytes')
+    """chunk_size - 6: the size was rejected when < 6, by a guard in Chunk::read itself or in a helper it calls with `?`"""
+    b0 = site.body
+    b = ctx.fx.inlined_view(b0.name, [P + 'check_chunk_bytes']) or b0
+    m = b0.blocks[site.bb]['term']['msg']
+    import poly as PL
+    minuend = PL.canon(q.expand(res(b0).operand(m['a']), ctx.fx, 2))
+    k = q.const_val(res(b0).operand(m['b']))
 
-    def pred(cond):
-        if cond[0] == 'bin' and cond[1] == 'Lt' and is_param(strip_casts(cond[2]), 1) and q.const_val(cond[3]) is not None and q.const_val(cond[3]) >= k:
+    def pred(cond, truth):
+        cond = q.expand(cond, ctx.fx, 2)
+        if cond[0] != 'bin':
+            return False
+        l, r_ = PL.canon(cond[2]), PL.canon(cond[3])
+        kk = q.const_val(r_)
+        if cond[1] == 'Lt' and l == minuend and kk is not None and kk >= k and truth is False:
             return True
-        return None
-    if cb is None or not T.callee_rejects(cb, pred):
-        return False, 'check_chunk_bytes no longer rejects chunk_size < %s' % k
-    return True, 'dominated by check_chunk_bytes(chunk_size, ..)? which returns Err when chunk_size < %s' % k
+        if cond[1] == 'Ge' and l == minuend and kk is not None and kk >= k and truth is True:
+            return True
+        return False
+    if not T.rejecting_guard(b, site.bb, pred):
+        return False, 'chunk_size - %s is not dominated by a rejection of chunk_size < %s (neither inline nor through check_chunk_bytes(..)?)' % (k, k)
+    return True, 'dominated by `chunk_size < %s -> Err` (directly or via check_chunk_bytes(..)?)' % k
 
 
 def row_bytes_available(ctx, site):
-    b = site.body
-    cs = T.dominating_call(b, site.bb, P + 'check_chunk_bytes')
-    if not cs:
-        return False, 'not dominated by a ?-propagated check_chunk_bytes(..) call'
-    at = q.arg_terms(cs[0])
-    m = b.blocks[site.bb]['term']['msg']
-    sub = strip_casts(res(b).operand(m['b']))
-    if strip_casts(at[0]) != sub or not is_param(strip_casts(at[1]), 1):
-        return False, 'check_chunk_bytes(%s, %s) does not compare the subtrahend with *bytes_available' % (show(at[0]), show(at[1]))
-    cb = ctx.fx.body(P + 'check_chunk_bytes')
+    """*bytes_available -= chunk_size: chunk_size > bytes_available was rejected before"""
+    b0 = site.body
+    b = ctx.fx.inlined_view(b0.name, [P + 'check_chunk_bytes']) or b0
+    m = b0.blocks[site.bb]['term']['msg']
+    import poly as PL
+    sub = PL.canon(q.expand(res(b0).operand(m['b']), ctx.fx, 2))
+    minu = PL.canon(q.expand(res(b0).operand(m['a']), ctx.fx, 2))
 
-    def pred(cond):
-        if cond[0] == 'bin' and cond[1] == 'Gt' and is_param(strip_casts(cond[2]), 1) and is_param(strip_casts(cond[3]), 2):
+    def pred(cond, truth):
+        cond = q.expand(cond, ctx.fx, 2)
+        if cond[0] != 'bin':
+            return False
+        l, r_ = PL.canon(cond[2]), PL.canon(cond[3])
+        if cond[1] == 'Gt' and l == sub and r_ == minu and truth is False:
             return True
-        if cond[0] == 'bin' and cond[1] == 'Lt' and is_param(strip_casts(cond[2]), 2) and is_param(strip_casts(cond[3]), 1):
+        if cond[1] == 'Le' and l == sub and r_ == minu and truth is True:
             return True
-        return None
-    if cb is None or not T.callee_rejects(cb, pred):
-        return False, 'check_chunk_bytes no longer rejects chunk_size > bytes_available'
-    return True, 'dominated by check_chunk_bytes(chunk_size, *bytes_available)? which returns Err when chunk_size > bytes_available, so the difference stays >= 0'
+        if cond[1] == 'Lt' and l == minu and r_ == sub and truth is False:
+            return True
+        if cond[1] == 'Ge' and l == minu and r_ == sub and truth is True:
+            return True
+        return False
+    if not T.rejecting_guard(b, site.bb, pred):
+        return False, 'bytes_available - chunk_size is not dominated by a rejection of chunk_size > bytes_available'
+    return True, 'dominated by `chunk_size > *bytes_available -> Err` (directly or via check_chunk_bytes(..)?), so the difference stays >= 0'
 
 
 def _old_palette_loop_facts(b):
